@@ -797,6 +797,8 @@ func runC03(c *Ctx) {
 		chk(r6, pr.what, g, pr.want, fn)
 	}
 
+	lexerAcceptsHighCharacters(c, r6)
+
 	// ---- R7 block strings
 	r7 := c.Rule("R7", "block string escape and whitespace", 3)
 	if rb := p.Func("lexer.(*Lexer).readBlockString"); rb != nil {
@@ -1284,4 +1286,74 @@ func comparesWithConst(in ssa.Instruction, c string) bool {
 		}
 	}
 	return false
+}
+
+// lexerAcceptsHighCharacters (C03.R6, C12.R2, C13.R2): no decoded character above U+007F is rejected inside strings,
+// block strings and comments.
+func lexerAcceptsHighCharacters(c *Ctx, r *RuleResult) {
+	p := c.P
+	// no character above U+007F is rejected: inside strings, block strings and comments every SourceCharacter from
+	// U+0080 up is allowed, so an error under a test of a decoded rune's value can only concern a malformed encoding
+	// (rune error AND width one)
+	for _, name := range []string{"lexer.(*Lexer).readString", "lexer.(*Lexer).readBlockString", "lexer.(*Lexer).readComment"} {
+		fn := p.Func(name)
+		if fn == nil {
+			continue
+		}
+		nDec, bad := 0, false
+		allInstrs(fn, func(in ssa.Instruction) {
+			ex, ok := in.(*ssa.Extract)
+			if !ok || ex.Index != 0 {
+				return
+			}
+			call, ok := ex.Tuple.(*ssa.Call)
+			if !ok {
+				return
+			}
+			if nm := calleeName(call); nm != "unicode/utf8.DecodeRuneInString" && !(call.Call.StaticCallee() != nil && call.Call.StaticCallee().Name() == "peek" && call.Call.StaticCallee().Pkg == fn.Pkg) {
+				return
+			}
+			nDec++
+			sets := reachSets(fn, ex, ex.Block(), ivFull(0x10FFFF))
+			for _, b := range fn.Blocks {
+				isErr := false
+				for _, bi := range b.Instrs {
+					if c2, ok := bi.(*ssa.Call); ok && c2.Call.StaticCallee() != nil && c2.Call.StaticCallee().Name() == "makeError" {
+						isErr = true
+					}
+				}
+				if !isErr {
+					continue
+				}
+				dep, widthOne := false, false
+				for _, cd := range condsAt(b) {
+					bo, ok := cd.V.(*ssa.BinOp)
+					if !ok {
+						continue
+					}
+					if sameScrutinee(bo.X, ex) || sameScrutinee(bo.Y, ex) {
+						dep = true
+					}
+					// width == 1 of the same decode
+					for _, o := range []ssa.Value{bo.X, bo.Y} {
+						if e2, ok := stripChange(o).(*ssa.Extract); ok && e2.Tuple == ex.Tuple && e2.Index == 1 {
+							widthOne = true
+						}
+					}
+				}
+				if !dep || widthOne {
+					continue
+				}
+				set := sets[b].intersectRange(0x80, 0x10FFFF)
+				if len(set) > 0 {
+					bad = true
+					r.Fail(b.Instrs[0].Pos(), p.FuncName(fn), "characters above U+007F rejected: "+set.String(), "an error is raised for decoded characters "+set.String()+": every character from U+0080 up is a SourceCharacter and must be accepted here (a string holding it, written by the formatter as it is, would no longer parse)")
+				}
+			}
+		})
+		if nDec > 0 && !bad {
+			r.OK(p.FuncName(fn)+": no decoded character above U+007F is rejected", "")
+		}
+	}
+
 }
